@@ -1,5 +1,6 @@
 """C15 — XYE files round-trip coordinates and values exactly, uncertainties to rounding."""
 
+import contextlib
 import io
 import itertools
 import math
@@ -37,10 +38,11 @@ RULE = (
 )
 TOLERANCES = {"coordinate_ulp": 0, "value_ulp": 0, "variance_ulp": 4}
 ASSUMPTIONS = [
-    "variance bound: fl(fl(sqrt(v))**2) differs from v by < 3 ulp for normal v and <= 1 ulp for "
-    "subnormal v (two roundings of 2**-53 relative, doubled by squaring, plus one); the decimal "
-    "text with 19 significant digits is transparent; 4 ulp is DESIGN's reading of 'a few units "
-    "in the last place' and leaves >= 1 ulp over the analytic bound (worst observed: 2 ulp)",
+    "variance bound: s = fl(sqrt(v)) has |s - sqrt(v)| <= ulp(s)/2, so s*s is within 1.42 ulp(v) of v "
+    "before and within 1.92 ulp after the final rounding, i.e. fl(s*s) is at most 1 ulp from v (exactly "
+    "for subnormal v too; 8e6 sampled bit patterns: 0 or 1 ulp, never more); the decimal text with 19 "
+    "significant digits is transparent; the tolerance of 4 ulp is DESIGN's reading of the statement's "
+    "'a few units in the last place', not a measured margin",
     "header text = printable ASCII plus '\\n' and '\\t'; '\\r' and other control characters are "
     "line breaks for Python's universal-newline reader / str.splitlines (outside this package)",
     "coordinate and dimension names are printable ASCII plus '\\n' (they enter the generated header)",
@@ -165,15 +167,26 @@ SPECIALS = [
 ]
 
 
+def _finite_from_bits(b: int) -> float:
+    """Any 64-bit pattern -> finite float (an all-ones exponent has its lowest exponent bit cleared)."""
+    if (b & MAG) > MAX_FINITE_BITS:
+        b &= ~(1 << 52)
+    return float_of(b)
+
+
+NEAR_SPECIALS = sorted(
+    {shift_ulps(sgn * s, k) for s in SPECIALS for k in range(-3, 4) for sgn in (1.0, -1.0)},
+    key=lambda f: (abs(f), math.copysign(1.0, f)),
+)
+
+
 def any_float():
     generic = st.floats(allow_nan=False, allow_infinity=False, allow_subnormal=True, width=64)
-    bits = st.tuples(st.integers(0, MAX_FINITE_BITS), st.booleans()).map(
-        lambda t: float_of(t[0] | (SIGN if t[1] else 0)))
-    sub = st.tuples(st.integers(1, 0x000FFFFFFFFFFFFF), st.booleans()).map(
-        lambda t: float_of(t[0] | (SIGN if t[1] else 0)))
-    near = st.tuples(st.sampled_from(SPECIALS), st.integers(-3, 3), st.booleans()).map(
-        lambda t: shift_ulps(-t[0] if t[2] else t[0], t[1]))
-    return st.one_of(generic, bits, bits, sub, near)
+    bits = st.integers(0, 2**64 - 1).map(_finite_from_bits)
+    sub = st.integers(-0x000FFFFFFFFFFFFF, 0x000FFFFFFFFFFFFF).map(
+        lambda m: float_of((SIGN if m < 0 else 0) | abs(m)))
+    near = st.sampled_from(NEAR_SPECIALS)
+    return st.one_of(generic, generic, bits, bits, bits, sub, near)
 
 
 def nonneg_float():
@@ -272,7 +285,7 @@ def load_args(draw, dim):
 
 
 def row_counts():
-    return st.one_of(st.just(1), st.just(2), st.integers(3, 8), st.integers(3, 8),
+    return st.one_of(st.just(1), st.just(2), st.integers(3, 8), st.integers(3, 8), st.integers(3, 8),
                      st.integers(9, 40))
 
 
@@ -339,6 +352,13 @@ def build(case):
     if case["header"]["kind"] != "default":
         kwargs["header"] = case["header"]["text"]
     return da, kwargs, x, y, v
+
+
+def workdir(case):
+    """Fresh directory for path / file targets (removed when the case ends); none for buffers."""
+    if case["target"].startswith("StringIO"):
+        return contextlib.nullcontext(None)
+    return tempfile.TemporaryDirectory(prefix="vf-c15-")
 
 
 def save(case, da, kwargs, tmp):
@@ -500,7 +520,7 @@ def check_roundtrip(case):
 
     da, kwargs, x, y, v = build(case)
     labs, nontrivial = classify(case, x, y, v)
-    with tempfile.TemporaryDirectory(prefix="vf-c15-") as tmp:
+    with workdir(case) as tmp:
         _text, handle = save(case, da, kwargs, tmp)
         got = load(case, handle)
     la = case["load"]
@@ -542,7 +562,7 @@ def check_roundtrip(case):
 def check_text(case):
     da, kwargs, x, y, v = build(case)
     labs, nontrivial = classify(case, x, y, v)
-    with tempfile.TemporaryDirectory(prefix="vf-c15-") as tmp:
+    with workdir(case) as tmp:
         text, _handle = save(case, da, kwargs, tmp)
     n = case["n"]
     try:
@@ -553,8 +573,6 @@ def check_text(case):
     if len(rows) != n:
         raise Violation("rows", f"file contains {len(rows)} table rows, {n} saved",
                         {"head": text[:300]})
-    if not text.endswith("\n"):
-        raise Violation("text-table", "file does not end with a newline")
     fx = np.array([r[0] for r in rows], dtype="<f8")
     fy = np.array([r[1] for r in rows], dtype="<f8")
     fe = np.array([r[2] for r in rows], dtype="<f8")
@@ -654,8 +672,8 @@ def check_refusal(case):
             "explicit" if case["explicit"] else "deduced", *("kind:" + k for k in case["kinds"])]
     t = case["target"]
     refused = None
-    with tempfile.TemporaryDirectory(prefix="vf-c15-") as tmp:
-        path = os.path.join(tmp, "out.xye")
+    with workdir(case) as tmp:
+        path = None if tmp is None else os.path.join(tmp, "out.xye")
         before = None
         buf = None
         fh = None
@@ -717,22 +735,22 @@ def check_refusal(case):
 
 FACETS = [
     Facet("roundtrip", check_roundtrip, strategy=lambda tier: roundtrip_cases(),
-          quick=(4, 400), thorough=(16, 4000), min_nontrivial=0.5,
+          quick=(4, 250), thorough=(16, 2000), min_nontrivial=0.5,
           doc="save_xye -> load_xye, 1..40 rows, 1..5 coords, all targets: X and Y bit-identical, "
               "variances within 4 ulp, rows, dims, coord name, units as requested"),
     Facet("file_text", check_text, strategy=lambda tier: roundtrip_cases(),
-          quick=(2, 400), thorough=(16, 2500), min_nontrivial=0.5,
+          quick=(2, 250), thorough=(16, 1000), min_nontrivial=0.5,
           doc="the saved text, parsed by an independent reader: comments + exactly n three-column "
               "rows holding X, Y bit-exactly and E with E*E within 4 ulp of the variance"),
     Facet("headers", check_roundtrip, strategy=lambda tier: roundtrip_cases(adversarial=True),
-          quick=(3, 400), thorough=(16, 4000), min_nontrivial=0.3,
+          quick=(2, 300), thorough=(16, 1500), min_nontrivial=0.3,
           doc="1..3 rows with adversarial headers / coordinate names (row-like lines, '#', leading "
               "digits, blank lines, tabs): the table loads unchanged"),
     Facet("large_files", check_roundtrip, strategy=lambda tier: large_cases(),
-          quick=(2, 60), thorough=(16, 150), min_nontrivial=0.5,
+          quick=(2, 40), thorough=(16, 100), min_nontrivial=0.5,
           doc="65..10000 rows from cycled / ulp-walked palettes; same oracle as roundtrip"),
     Facet("refusal", check_refusal, enumerate=refusal_cases, exhaustive_in=("quick", "thorough"),
-          quick=(4, 0), thorough=(16, 0), min_nontrivial=0.5,
+          quick=(2, 0), thorough=(16, 0), min_nontrivial=0.5,
           doc="every single and pairwise combination of unrepresentable features is refused with the "
               "pinned exception and the target (buffer, new/existing path, open file) is untouched"),
 ]
